@@ -200,11 +200,13 @@ type RigS struct {
 	faultsAtStart      int
 	storeFaultsAtStart int
 	deletedAt          map[string]int
-	bgTouched          map[int]bool   // downstreams on which the service touched a task record on its own in this incarnation
-	stateFaulted       int            // scripted state-write faults used so far (this incarnation)
-	partDropMemo       map[int64]bool // partitions dropped at the source somewhere in the history
-	prevRaw            string         // the persisted content at the previous scheduler step
-	bgWriteStep        map[string]int // task -> step of the last write of its record made while no request on it was in flight
+	bgTouched          map[int]bool    // downstreams on which the service touched a task record on its own in this incarnation
+	stateFaulted       int             // scripted state-write faults used so far (this incarnation)
+	partDropMemo       map[int64]bool  // partitions dropped at the source somewhere in the history
+	prevRaw            string          // the persisted content at the previous scheduler step
+	bgWriteStep        map[string]int  // task -> step of the last write of its record made while no request on it was in flight
+	loopFailed         map[int]bool    // downstreams on which a task was paused by a failure met in one of the loops all tasks of the downstream share (event loop, per-channel write loop)
+	recovered          map[string]bool // tasks the recovery phase resumed (the request was answered 200)
 }
 
 func (r *RigS) gate(kind string) Gate {
@@ -1596,48 +1598,51 @@ func (r *RigS) run() {
 	}
 	// drain: no new faults, no new requests; publish the rest of the history so that liveness is judged on a complete run
 	s.Draining = true
-	idle = 0
-	extraTicks := 0
-	for n := 0; idle < 40 && n < 6000; n++ {
-		s.Settle()
-		if !wasReloaded && isReloaded() {
-			wasReloaded = true
-			r.afterReload()
-		}
-		r.afterStep(false)
-		as := acts(true)
-		if isReloaded() && st.HistPos < len(sc.History) && !r.opBusy {
-			h := &sc.History[st.HistPos]
-			as = append(as, Action{Key: fmt.Sprintf("hist:%04d:%s", st.HistPos, h.K), Run: func() { r.applyHistory(h); st.HistPos++ }})
-		}
-		if len(as) == 0 {
-			idle++
-			if idle%3 == 0 && extraTicks < 16 && isReloaded() && st.HistPos >= len(sc.History) && !r.opBusy && !r.noDataFlow() {
-				// the source keeps ticking: batches buffered by the packer are flushed by its age threshold only when a next pack arrives
-				extraTicks++
-				var maxTs uint64
-				for i := 0; i < sc.Knobs.ChannelNum; i++ {
-					if lg := r.mq.Logs[srcPCh(i)]; len(lg) > 0 && lg[len(lg)-1].Ts > maxTs {
-						maxTs = lg[len(lg)-1].Ts
+	drain := func() {
+		idle = 0
+		extraTicks := 0
+		for n := 0; idle < 40 && n < 6000; n++ {
+			s.Settle()
+			if !wasReloaded && isReloaded() {
+				wasReloaded = true
+				r.afterReload()
+			}
+			r.afterStep(false)
+			as := acts(true)
+			if isReloaded() && st.HistPos < len(sc.History) && !r.opBusy {
+				h := &sc.History[st.HistPos]
+				as = append(as, Action{Key: fmt.Sprintf("hist:%04d:%s", st.HistPos, h.K), Run: func() { r.applyHistory(h); st.HistPos++ }})
+			}
+			if len(as) == 0 {
+				idle++
+				if idle%3 == 0 && extraTicks < 16 && isReloaded() && st.HistPos >= len(sc.History) && !r.opBusy && !r.noDataFlow() {
+					// the source keeps ticking: batches buffered by the packer are flushed by its age threshold only when a next pack arrives
+					extraTicks++
+					var maxTs uint64
+					for i := 0; i < sc.Knobs.ChannelNum; i++ {
+						if lg := r.mq.Logs[srcPCh(i)]; len(lg) > 0 && lg[len(lg)-1].Ts > maxTs {
+							maxTs = lg[len(lg)-1].Ts
+						}
 					}
+					r.applyHistory(&HEvent{K: "tick", Ts: maxTs + (200 << 18)})
+					s.logf("%04d drain extra tick %d", s.Step, extraTicks)
+					s.Advance(time.Duration(sc.Knobs.PackTimerMs+100) * time.Millisecond)
+					continue
 				}
-				r.applyHistory(&HEvent{K: "tick", Ts: maxTs + (200 << 18)})
-				s.logf("%04d drain extra tick %d", s.Step, extraTicks)
-				s.Advance(time.Duration(sc.Knobs.PackTimerMs+100) * time.Millisecond)
+				s.Advance(500 * time.Millisecond)
 				continue
 			}
-			s.Advance(500 * time.Millisecond)
-			continue
+			idle = 0
+			sort.Slice(as, func(i, j int) bool { return as[i].Key < as[j].Key })
+			s.logf("%04d drain %s", s.Step, as[0].Key)
+			s.Step++
+			s.Tick()
+			as[0].Run()
 		}
-		idle = 0
-		sort.Slice(as, func(i, j int) bool { return as[i].Key < as[j].Key })
-		s.logf("%04d drain %s", s.Step, as[0].Key)
-		s.Step++
-		s.Tick()
-		as[0].Run()
+		s.Settle()
+		r.afterStep(false)
 	}
-	s.Settle()
-	r.afterStep(false)
+	drain()
 	if !wasReloaded {
 		s.Violate("C11", "reload_stuck", "ReloadTask did not return")
 	}
@@ -1645,6 +1650,9 @@ func (r *RigS) run() {
 		s.Violate("C19", "request_stuck", "request %d (%s) never answered", st.InFlight, sc.Ops[max(st.InFlight, 0)].K)
 	}
 	r.finalOracles()
+	if sc.Knobs.Recover && wasReloaded && !r.opBusy && (r.plan.Prop == "C05" || r.plan.Prop == "C06") {
+		r.recoveryPhase(drain)
+	}
 	r.scanLog()
 	st.SimSecs += s.Now().Seconds()
 	res := s.Result("ok")
